@@ -4,12 +4,12 @@ go 1.24
 
 require (
 	github.com/ddddddO/gtree v0.0.0
+	github.com/fatih/color v1.18.0
 	github.com/pelletier/go-toml/v2 v2.2.4
 	gopkg.in/yaml.v3 v3.0.1
 )
 
 require (
-	github.com/fatih/color v1.18.0 // indirect
 	github.com/mattn/go-colorable v0.1.13 // indirect
 	github.com/mattn/go-isatty v0.0.20 // indirect
 	golang.org/x/sync v0.13.0 // indirect
